@@ -588,7 +588,7 @@ C13_FIELDS = ["init", "len", "elems", "cannest", "nesting", "bits", "integ"]
 @check("C13")
 def c13(work, v, tier):
     q = tier == "quick"
-    vals = ["nil", "a", "S", "A", "P", "C"]
+    vals = ["nil", "a", "S", "A", "P", "C", "CS"]
     tables = [("nest", dict(Caps=[0, 2], Kinds=["AND", "OR", "NOT", "LIST", "BASIC"] if not q else ["AND", "LIST", "BASIC"], Vals=vals,
                             MaxLen=2 if q else 3, InitOpts=[[], ["nnest"]], Fams=["grow", "opts"], OptFlags=["nnest"],
                             PushLens=[1, 2], depth=2, walks=300 if q else 20000, wlen=40))]
@@ -602,7 +602,8 @@ def c13(work, v, tier):
                     "interleaved with set / clear / toggle of the option, on every kind; content, CanNest, IsNesting and the raw option bits "
                     "compared after every step; the Condition side (SetExpression refuses a Stack / alias / pointer while no-nesting is set, "
                     "switching never touches the stored expression, CanNest / IsNesting) in a CondMC instance and in CondTrace histories",
-                    ctraces=[("rand", dict(traces=200 if q else 2000, len=50, fields=["init", "ex", "nesting", "cannest", "bits", "len"]))])
+                    ctraces=[("rand", dict(traces=200 if q else 2000, len=50, fields=["init", "ex", "nesting", "cannest", "bits", "len"]))],
+                    rands=[dict(module="Check_Measure", fn="measure", n=2000 if q else 100000, depth=3, salt=13)])
 
 
 C14_FIELDS = ["init", "len", "elems", "err", "integ", "valid", "strsrc", "eqsrc", "umsrc", "kind", "less"]
@@ -614,7 +615,7 @@ def c14(work, v, tier):
     tables = [("policy", dict(Caps=[0, 1, 2], Vals=["nil", "a", "b"], MaxLen=3, Fams=["grow", "policy", "err"], PushLens=[1, 2, 3],
                               depth=2, walks=300 if q else 20000, wlen=40))]
     # a push policy takes the place of the no-nesting filter: what it approves is stored, Stacks included
-    tables.append(("pol-nn", dict(Caps=[0, 2], Vals=["a", "S", "A"], MaxLen=2, InitOpts=[[], ["nnest"]], OptFlags=["nnest"], Fams=["grow", "policy", "opts"], PushLens=[1, 2],
+    tables.append(("pol-nn", dict(Caps=[0, 2], Vals=["a", "S", "A"], MaxLen=2, InitOpts=[[], ["nnest"]], InitMtx=[False, True], OptFlags=["nnest"], Fams=["grow", "policy", "opts"], PushLens=[1, 2],
                                   depth=2, walks=200 if q else 10000, wlen=30)))
     tables.append(("closures", dict(Caps=[0], Kinds=["AND", "OR", "NOT", "LIST", "BASIC"], Vals=["a"], MaxLen=1, PushLens=[1], InitOpts=[[], ["paren"]],
                                     Fams=["closures", "grow", "marshal"], depth=2, walks=300 if q else 20000, wlen=40)))
@@ -889,6 +890,12 @@ def parse_race_log(text):
     return out
 
 
+class FatalCrash(Exception):
+    def __init__(self, text, cmd):
+        Exception.__init__(self, text)
+        self.text, self.cmd = text, cmd
+
+
 def race_stage(work, v, findings, prop, acc, mode, cmd_args, name, confirm=None):
     """Free-running goroutines in a -race build; histories judged by LinTrace.tla,
     race reports classified by RaceClass.tla."""
@@ -900,7 +907,12 @@ def race_stage(work, v, findings, prop, acc, mode, cmd_args, name, confirm=None)
     with open(logf, "w") as lf:
         p = subprocess.run([hr] + cmd_args + ["-out", histf], stdout=subprocess.PIPE, stderr=lf, text=True, env=env, timeout=3000)
     if p.returncode != 0:
-        raise Infra("race-built harness failed (rc=%d): %s" % (p.returncode, open(logf).read()[-1500:]))
+        text = open(logf).read()
+        i = text.find("fatal error:")
+        if i >= 0 and "go-stackage." in text[i:]:
+            # the Go runtime killed the driver from inside the package's own lock handling: not recoverable in-process
+            raise FatalCrash(text[i:i + 1500], cmd_args)
+        raise Infra("race-built harness failed (rc=%d): %s" % (p.returncode, text[-1500:]))
     g = json.loads(p.stdout.strip().splitlines()[-1])
     reports = parse_race_log(open(logf).read())
     racef = work.path("races_%s.ndjson" % name)
@@ -1049,7 +1061,19 @@ def c10(work, v, tier):
                                      json.dumps([[dict(c=e["c"], ret=e["ret"]) for e in gg] for gg in h["hist"]])[:1200], "final %s" % h["final"]],
                              **{"class": "C10/stress/%s" % ("flag" if h["flags"] else "nonlinearizable")}))
         return viol
-    viol = stress(0, "a")
+    try:
+        viol = stress(0, "a")
+    except FatalCrash as fc1:
+        try:
+            stress(7, "b")
+            raise Infra("the free-running driver died once with a fatal runtime error that did not recur: " + fc1.text[:400])
+        except FatalCrash as fc2:
+            rec = dict(property="C10", kind="fatal", cmd=fc2.cmd,
+                       detail=["the free-running driver died twice with a fatal Go runtime error raised inside the package's lock handling",
+                               fc1.text.splitlines()[0], " | ".join(l.strip() for l in fc1.text.splitlines()[1:12] if "go-stackage." in l)[:600]],
+                       **{"class": "C10/stress/fatal"})
+            triage(v, findings, "C10", harness, rec, None)
+            viol = []
     if viol:
         # free-running results are not deterministic: confirm with an independent second run
         viol2 = stress(7, "b")
